@@ -161,4 +161,31 @@ theorem sqrtrem1_spec (a : Nat) (h1 : B / 4 ≤ a) (h2 : a < B) :
 example : sqrtrem1 (B / 4) = (2 ^ 31, 0) ∧ sqrtrem1 (B - 1) = (2 ^ 32 - 1, 2 * (2 ^ 32 - 1)) ∧
     sqrtrem1 (3037000500 * 3037000500 - 1) = (3037000499, 2 * 3037000499) := by decide +kernel
 
+/-- mpn_sqrtrem2 (sqrtrem.c:203-243) on a normalised two-limb operand (`np1 ≥ B/4`), word level: the
+    subtraction loop, the division by `2·sp[0]`, the `qhl` bookkeeping (including the wrap of
+    `sp[0]` to 0 when the root candidate is `B`), the borrow of `q²` and the add-back with carries give
+    `{np0, np1} = sp² + cc·B + rp` with `cc·B + rp ≤ 2·sp`; hence `sp = ⌊√N⌋`. -/
+theorem sqrtrem2_spec' (np0 np1 : Nat) (h0 : np0 < B) (h1 : B / 4 ≤ np1) (h2 : np1 < B) :
+    ∃ sp rp cc, sqrtrem2 np0 np1 = (sp, rp, cc) ∧ sp = Nat.sqrt (np1 * B + np0) ∧
+      (cc * (B : Int) + (rp : Int)).toNat = np1 * B + np0 - sp * sp := by
+  obtain ⟨sp, rp, cc, e, p1, p2⟩ := sqrtrem2_ex np0 np1 h0 h1 h2
+  obtain ⟨d1, d2⟩ := sqrt_of_rem p1 p2
+  exact ⟨sp, rp, cc, e, d1, by rw [d2, ← d1]⟩
+
+example : sqrtrem2 (B - 1) (B - 1) = (B - 1, B - 2, 1) ∧ sqrtrem2 0 (B / 4) = (B / 2, 0, 0) := by
+  decide +kernel
+
+/-- mpn_dc_sqrtrem (sqrtrem.c:252-293, Zimmermann's "Karatsuba square root") at value level: for every
+    limb count `n ≥ 1` and every normalised operand `B^(2n)/4 ≤ N < B^(2n)` the recursion (high half,
+    division of `R'·B^l + a1` by `S'`, parity bit and halving, subtraction of `q²`, one correction)
+    returns `(⌊√N⌋, N − ⌊√N⌋²)`.  The base case is the word-level mpn_sqrtrem2 theorem above, the step
+    is `zstep`.  (Value level: limb carries and buffer aliasing inside the function are not modelled.) -/
+theorem dc_sqrtrem_spec (n N : Nat) (hn : 0 < n) (h1 : B ^ (2 * n) ≤ 4 * N) (h2 : N < B ^ (2 * n)) :
+    dcSqrtrem n N = (Nat.sqrt N, N - Nat.sqrt N * Nat.sqrt N) := by
+  obtain ⟨e, r⟩ := dcSpec n N hn h1 h2
+  obtain ⟨d1, d2⟩ := sqrt_of_rem e r
+  exact Prod.ext d1 d2
+
+example : dcSqrtrem 3 (B ^ 6 - 1) = (B ^ 3 - 1, 2 * (B ^ 3 - 1)) := by decide +kernel
+
 end Mpir.Root
